@@ -249,6 +249,20 @@ def execute(lines, part=None):
             bad.append(("parse/succeeds-but-tokenize-raises/%s" % mode, "both succeed", "tokenize: " + tok_exc))
         if d != exp:
             bad.append(("parse/dump-%s/%s" % (_diff_kind(exp, d), mode), exp, d))
+    # the same lines supplied as a one-shot iterator and as a generator (documented input: any iterable of lines)
+    for kind, mk in (("iterator", lambda: iter(list(lines))), ("generator", lambda: (l for l in list(lines)))):
+        try:
+            tk2 = "".join(t.text for t in tokenize_deb822_file(mk()))
+            d2 = parse_deb822_file(mk(), accept_files_with_error_tokens=True,
+                                   accept_files_with_duplicated_fields=True).dump()
+        except Exception as e:
+            if not bad:
+                bad.append(("one-shot-%s/raises/%s/%s" % (kind, _exc_sig(e), mode), "same as for a list",
+                            "%s: %s" % (type(e).__name__, e)))
+            continue
+        if not bad and (tk2 != exp or d2 != exp):
+            bad.append(("one-shot-%s/%s/%s" % (kind, _diff_kind(exp, d2 if d2 != exp else tk2), mode), exp,
+                        d2 if d2 != exp else tk2))
     if part is not None:
         part.evaluations += 2
         if f is None:
